@@ -248,7 +248,8 @@ MUTANTS = [('or_last', ('Result', 'ShortCircuit'), dict(Depth=1, Wide='FALSE')),
            # hardening: falsy values are values (defaults, sub-results), bool() decides truthiness
            ('truthy_by_len', ('Decides',), dict(Depth=1, Wide='FALSE')),
            ('falsy_default_missing', ('Decides', 'Defaults'), dict(Depth=1, Wide='FALSE')),
-           ('or_skips_falsy_result', ('Decides', 'Result', 'ShortCircuit'), dict(Depth=1, Wide='FALSE'))]                        # Optional / Required construction
+           ('or_skips_falsy_result', ('Decides', 'Result', 'ShortCircuit'), dict(Depth=1, Wide='FALSE')),
+           ('check_validator_some_exceptions', ('CheckContains',), dict(Depth=1, Wide='FALSE'))]   # whatever a validator raises is a failed condition                        # Optional / Required construction
 
 
 def main(tier, seed):
